@@ -16,9 +16,10 @@ from . import c17
 from .c17 import (E, T, walk, n_elements, build_holder, is_tag, is_parser, root_of, elems, Canon, seed, holder_sx, attrs_sx,
                   lib, ORD, VOID, WRAPPER)
 
-NAMES = ['div', 'span', 'p', 'b', 'a', 'br', 'li', 'input', 'nosuch', 'em']
-ATTRS = ['id', 'class', 'style', 'title', 'name', 'href', 'checked', 'data-k', 'data-x', 'nosuch', 'CLASS', 'spellcheck']
-VALUES = ['x', 'a', 'a b', 'main', 'e1', 'k1', '1', '', 'color: red', 'nosuch']
+NAMES = ['div', 'span', 'p', 'b', 'a', 'br', 'li', 'input', 'nosuch', 'em', 'td', 'col', 'textarea', 'form']
+ATTRS = ['id', 'class', 'style', 'title', 'name', 'href', 'checked', 'data-k', 'data-x', 'nosuch', 'CLASS', 'spellcheck',
+         'colspan', 'rowspan', 'span', 'maxlength', 'tabindex', 'cols', 'size', 'method']     # read through converting dot names
+VALUES = ['x', 'a', 'a b', 'main', 'e1', 'k1', '1', '', 'color: red', 'nosuch', 'two', '-3', '7']
 STYLE_PROPS = ['color', 'fontWeight', 'font-weight', 'paddingTop', 'float', 'nosuch']
 # class queries: one name, several names, names in another order, and names that occur nowhere (a lookup of a missing
 # name must not leave a trace in an index)
@@ -174,6 +175,21 @@ simple('el.attributes.get', ONE, lambda c, a, b, s: c.E(a).attributes.get(s, 'df
 simple('el.attributesDOM.iter', ONE, lambda c, a, b, s: ([k for k in c.E(a).attributesDOM], str(c.E(a).attributesDOM)))
 simple('el.repr', ONE, lambda c, a, b, s: repr(c.E(a)))
 simple('el.dot', ONE, lambda c, a, b, s: [getattr(c.E(a), n) for n in ('id', 'name', 'title', 'checked', 'tabIndex', 'href', 'onclick', 'hidden', 'spellcheck', 'style', 'dir', 'lang')])
+
+
+def _dot_special(c, a, b, s):
+    # every dot name with a converting getter (constants.TAG_ITEM_ATTRIBUTES_SPECIAL_VALUES), whatever the element is
+    from AdvancedHTMLParser import constants as K
+    out = []
+    for n in sorted(set(K.TAG_ITEM_ATTRIBUTES_SPECIAL_VALUES) | {'colSpan', 'rowSpan', 'span', 'maxLength', 'cols', 'rows', 'size', 'method'}):
+        try:
+            out.append((n, getattr(c.E(a), n)))
+        except Exception as ex:
+            out.append((n, 'raised ' + type(ex).__name__))
+    return out
+
+
+simple('el.dot-special', ONE, _dot_special)
 simple('el.isTagEqual', TWO, lambda c, a, b, s: c.E(a).isTagEqual(c.E(b)))
 simple('el.isTagEqual-other-doc', ONE, lambda c, a, b, s: c.E(a).isTagEqual(elems(root_of(c.other))[0]))
 
@@ -541,6 +557,18 @@ class Check(PropCheck):
                     ops = [[0, name, k % 4, (ATTRS.index('data-k'), ATTRS.index('title'))[k % 2], ('k1', 't1')[k % 2]]]
                 yield Case({'holder': holder, 'idx': [1, 1, 1, 1], 'attr_idx': (['data-k', 'title'] if tree[2][:1] == [['id', 'm']] else ['data-k']) if holder == 'indexed' else [],
                             'doctype': 'DOCTYPE html' if k % 2 else None, 'tree': tree, 'tree2': second, 'ops': ops}, 'exhaustive')
+        # converting dot names (colSpan, span, maxLength, tabIndex, size, cols, ...) read on elements whose attribute text is
+        # not what the conversion expects: a read returns a converted value, it does not repair the attribute
+        odd = E('form', [('method', 'Two'), ('autocomplete', 'maybe')], False, [
+            E('td', [('colspan', 'two'), ('rowspan', '')], False, [T('a')]), E('td', [('colspan', '-3'), ('rowspan', '99999')], False, []),
+            E('col', [('span', 'two')], False, []), E('col', [('span', None)], False, []),
+            E('textarea', [('maxlength', 'x'), ('cols', ''), ('rows', '-1'), ('tabindex', 'q')], False, [T('t')]),
+            E('input', [('maxlength', '-9'), ('size', 'big'), ('tabindex', ''), ('spellcheck', 'maybe')], False, [])])
+        for holder in ('plain', 'indexed', 'validating', 'detached'):
+            for i in range(7):
+                for name in ('el.dot-special', 'el.dot'):
+                    yield Case({'holder': holder, 'idx': [1, 1, 1, 1], 'attr_idx': [], 'doctype': None, 'tree': odd, 'tree2': second,
+                                'ops': [[0, name, i, 0, 'x']]}, 'exhaustive')
         n = 6000 if tier == 'thorough' else 1400
         for i in range(n):
             yield Case(self.random_case(rng, big=(tier == 'thorough' and i % 5 == 0)), 'random')
